@@ -58,10 +58,14 @@ impl<F> Directory<F> {
         let mut stream_id = consts::ROOT_STREAM_ID;
         for name in names.iter() {
             stream_id = self.dir_entry(stream_id).child;
+            // (The step limit guards against a cyclic sibling tree, which an
+            // update that failed half-way can leave behind in memory.)
+            let mut remaining_steps = self.dir_entries.len();
             loop {
-                if stream_id == consts::NO_STREAM {
+                if stream_id == consts::NO_STREAM || remaining_steps == 0 {
                     return None;
                 }
+                remaining_steps -= 1;
                 let dir_entry = self.dir_entry(stream_id);
                 match internal::path::compare_names(name, &dir_entry.name) {
                     Ordering::Equal => break,
@@ -83,6 +87,10 @@ impl<F> Directory<F> {
 
     pub fn root_dir_entry(&self) -> &DirEntry {
         self.dir_entry(consts::ROOT_STREAM_ID)
+    }
+
+    pub fn num_dir_entries(&self) -> usize {
+        self.dir_entries.len()
     }
 
     pub fn dir_entry(&self, stream_id: u32) -> &DirEntry {
@@ -282,7 +290,13 @@ impl<F: Write + Seek> Directory<F> {
         let mut sibling_id = self.dir_entry(parent_id).child;
         let mut prev_sibling_id = parent_id;
         let mut ordering = Ordering::Equal;
+        let mut remaining_steps = self.dir_entries.len();
         while sibling_id != consts::NO_STREAM {
+            if remaining_steps == 0 {
+                *self.dir_entry_mut(stream_id) = DirEntry::unallocated();
+                malformed!("sibling tree is inconsistent near {:?}", name);
+            }
+            remaining_steps -= 1;
             let sibling = self.dir_entry(sibling_id);
             prev_sibling_id = sibling_id;
             ordering = internal::path::compare_names(name, &sibling.name);
@@ -372,11 +386,16 @@ impl<F: Write + Seek> Directory<F> {
             // the left subtree) takes the place of the removed entry.
             let mut pred_parent_id = stream_id;
             let mut predecessor_id = left_sibling;
+            let mut remaining_steps = self.dir_entries.len();
             loop {
                 let next_id = self.dir_entry(predecessor_id).right_sibling;
                 if next_id == consts::NO_STREAM {
                     break;
                 }
+                if remaining_steps == 0 {
+                    malformed!("sibling tree is inconsistent near {:?}", name);
+                }
+                remaining_steps -= 1;
                 pred_parent_id = predecessor_id;
                 predecessor_id = next_id;
             }
